@@ -16,7 +16,7 @@ template <typename To, typename Rep, typename Period>
     noexcept(is_arithmetic_v<Rep> and is_arithmetic_v<typename To::rep>) -> To
 {
     auto const low      = floor<To>(dur);
-    auto const high     = low + To{1};
+    To const high       = low + To{1};
     auto const lowDiff  = dur - low;
     auto const highDiff = high - dur;
     if (lowDiff < highDiff) {
